@@ -8,7 +8,7 @@ FORMATS = ["json", "yaml", "bson", "xml", "pickle"]
 OPTIONS = {
     "json": [{}, {"pretty": True}, {"pretty": False}],
     "yaml": [{}, {"root_key": "CONFIG"}, {"root_key": "k0"}],
-    "xml": [{}, {"root_tag": "config"}, {"root_tag": "cfg"}, {"root_tag": "k0"}],
+    "xml": [{}, {"root_tag": "config"}, {"root_tag": "cfg"}, {"root_tag": "k0"}, {"root_tag": "xmlconfig"}, {"root_tag": "XML-settings"}],
     "bson": [{}],
     "pickle": [{}],
 }
